@@ -33,8 +33,8 @@ ASSUMPTIONS = [
     "the mixed system is [[W M_f, -div^T, 0], [div, 0, -c^T], [0, c, 0]] with diagonal flux block (class docstrings)",
 ]
 FLOORS = {
-    "quick": {"tiny_weight_scale_systems": 250, "solves_same_system": 900, "satisfies_full_system": 900, "formulation_usable": 300, "end_to_end_same_distance": 100, "default_tolerance_relative_residual": 800},
-    "thorough": {"tiny_weight_scale_systems": 700, "solves_same_system": 3000, "satisfies_full_system": 3000, "formulation_usable": 1000, "end_to_end_same_distance": 400, "default_tolerance_relative_residual": 2500},
+    "quick": {"rhs_object_reused": 300, "second_grid_same_shape": 300, "tiny_weight_scale_systems": 250, "solves_same_system": 900, "satisfies_full_system": 900, "formulation_usable": 300, "end_to_end_same_distance": 100, "default_tolerance_relative_residual": 800},
+    "thorough": {"rhs_object_reused": 1000, "second_grid_same_shape": 1000, "tiny_weight_scale_systems": 700, "solves_same_system": 3000, "satisfies_full_system": 3000, "formulation_usable": 1000, "end_to_end_same_distance": 400, "default_tolerance_relative_residual": 2500},
 }
 COMBOS = [("full", "direct"), ("flux_reduced", "direct"), ("pressure", "direct"), ("flux_reduced", "amg"), ("pressure", "amg"),
           ("flux_reduced", "cg"), ("pressure", "cg")]
@@ -130,10 +130,10 @@ def run_shard(spec, R):
             tol = 1e-9 if backend == "direct" else 1e-6
             wA = wscale * 10 ** rng.uniform(-1.5, 1.5, size=nf)
             wB = wscale * 10 ** rng.uniform(-1.5, 1.5, size=nf)
-            steps = [("fresh", wA, False), ("same_matrix_reuse", wA, True), ("new_matrix", wB, False), ("same_matrix_reuse", wB, True)]
-            usable = True
-            for si, (label, wts, reuse) in enumerate(steps):
-                rhs = rhs_vec(wscale)
+            steps = [("fresh", wA, False), ("same_matrix_reuse", wA, True), ("new_matrix", wB, False), ("same_matrix_reuse", wB, True), ("same_rhs_object", wB, False)]
+
+            def one_step(label, wts, reuse, rhs, rhs_in, case):
+                """One linear_solve on the current solver object, judged; returns False if the call raised."""
                 A = dense_system(wts)
                 if wscale == 1.0:
                     ref = np.linalg.solve(A, rhs)
@@ -146,16 +146,15 @@ def run_shard(spec, R):
                 mat = lib_matrix(wts)
                 # the library's own assembly agrees with the independent one
                 R.check(np.allclose(mat.toarray(), A, rtol=1e-13, atol=1e-13 * np.max(np.abs(A))), "system_assembly_agrees", case)
-                ok, out = R.guarded("formulation_usable", lambda: w1.linear_solve(mat, rhs.copy(), np.zeros_like(rhs), reuse_solver=reuse), key=lambda e, w: key)
+                ok, out = R.guarded("formulation_usable", lambda: w1.linear_solve(mat, rhs_in, np.zeros_like(rhs), reuse_solver=reuse), key=lambda e, w: key)
                 if not ok:
-                    usable = False
-                    break
+                    return False
                 sol = np.asarray(out[0], float)
                 if backend == "amg" and len(getattr(w1, "amg_residual_history", [])) > opt["linear_solver_options"]["maxiter"]:
                     # stand-alone AMG stopped at the iteration cap (5000 V-cycles, strongly anisotropic grid) while still
                     # converging: the solve did not reach its tolerance, so "up to solver tolerance" is not decidable
                     R.skip("amg_iteration_cap_reached_before_tolerance")
-                    continue
+                    return True
                 good = sol.shape == ref.shape and bool(np.all(np.isfinite(sol)))
                 det = {}
                 # tiny weights: a reduced formulation forms flux = J^-1 (g + D^T p), whose rounding error is relative to
@@ -174,8 +173,40 @@ def run_shard(spec, R):
                         "satisfies_full_system", lambda: {**case, "step": label, "residual": res, "rhs_norm": float(np.linalg.norm(rhs))}, key=mkey, group=f"{formulation}/{backend}")
                 R.check(abs(sol[nf + pinned]) <= tol * max(float(np.max(np.abs(ref[nf:nf + nc]))), 1e-300), "pressure_pinned", {**case, "step": label, "p": float(sol[nf + pinned])}, key=mkey)
                 R.sig([list(shape), formulation, backend, label], nontrivial=nf > 0, cls=f"{dim}d/{formulation}/{backend}")
+                return True
+
+            usable = True
+            prev = None
+            for si, (label, wts, reuse) in enumerate(steps):
+                if label == "same_rhs_object":
+                    # the caller solves again with the very array object it handed over before (values as it built them)
+                    if prev is None:
+                        continue
+                    rhs, rhs_in = prev
+                    R.count("rhs_object_reused")
+                else:
+                    rhs = rhs_vec(wscale)
+                    rhs_in = rhs.copy()
+                if not one_step(label, wts, reuse, rhs, rhs_in, case):
+                    usable = False
+                    break
+                prev = (rhs, rhs_in)
             if usable:
                 R.ok("formulation_usable")
+            # a second solver object on a grid of the same shape but other voxel sizes (nothing derived from the first
+            # grid may be carried over)
+            if usable and nf > 0:
+                saved = (M, Dm, w1, pinned)
+                h2 = [float(10 ** rng.uniform(-1, 1)) for _ in shape]
+                M = GridModel(shape, h2)
+                Dm = M.divergence_matrix()
+                ok, w1 = R.guarded("formulation_usable", lambda: darsia.WassersteinDistanceNewton(darsia.Grid(shape, list(h2)), None, opt), key=lambda e, w: key)
+                if ok:
+                    pinned = int(w1.constrained_cell_flat_index)
+                    rhs = rhs_vec(wscale)
+                    one_step("second_object_same_shape_other_voxel_sizes", wscale * 10 ** rng.uniform(-1.5, 1.5, size=nf), False, rhs, rhs.copy(), {**case, "voxel_size": h2})
+                    R.count("second_grid_same_shape")
+                M, Dm, w1, pinned = saved
             # iterative back-ends with their *documented default* tolerances (rtol 1e-6) on right-hand sides of
             # very different magnitude: the relative residual of the original full system must stay small
             if backend in ("amg", "cg") and mkey is None:
